@@ -87,7 +87,8 @@ def check(ctx):
         puts = p.calls(lambda c: method_call(c, 'put'))
         if not puts:
             continue
-        v2 = any('get_protocol_version() >= 4' in c or c == 'self._useV2' for c in p.cond_texts(orig=True) if not c.startswith('not '))
+        fk_ = p.fact_keys()
+        v2 = fact_key('self._useV2', True) in fk_ or any('get_protocol_version() < 4' in k[0] and not k[1] for k in fk_) or any('3 < ' in k[0] and 'get_protocol_version()' in k[0] and k[1] for k in fk_)
         stores = {norm(e.node.targets[0]): e.node.value for e in p.events if e.kind == 'store'}
         d = stores.get('pk.data')
         ok = isinstance(d, ast.Call) and fold_in(ru, d.args[0]) == ('<H' if v2 else '<B') and [norm(a) for a in d.args[1:]] == [ru.params[1]]
